@@ -7,8 +7,9 @@ every `urlparse`/`urlunparse` table and every parameterisation.
 * `decides_httpURL_partial` — everything except an element without a value on which a required
   part is asked for (KF-C15-a: the code says True; `http_no_value_accepted` is the witness and
   `C15_HttpFull_fails` the refutation of the full statement).
-* `http_rule_honoured_partial` / `http_netloc_rule_ignored` — a rule is honoured when its part
-  name is in `all_parts`; the default `all_parts` lacks `netloc` (KF-C15-b).
+* `http_rule_honoured_partial` / `http_rule_honoured` — a rule is honoured when its part name is in
+  `all_parts`; the default `all_parts` (regenerated from the source) is the ten documented names
+  (`default_all_parts_is_vocabulary`; KF-C15-b, `netloc` missing, is repaired in /repo).
 * which message key is noted in which situation (`urlValidator_key`, `httpURL_key`).
 * `canonicalizer_value`, `canonicalizer_failure_keeps_value`, `canonicalizer_idempotent`,
   `canonical_has_no_fragment`.
@@ -385,18 +386,19 @@ theorem C15_HttpFull_fails : ¬ C15_HttpFull := by
   rw [hv] at this
   simp [Except.toOption] at this
 
-/-! ### every documented part name's rule is honoured — only for names in `all_parts` -/
+/-! ### every documented part name's rule is honoured -/
 
-/-- the documentation's reading of `required_parts`: "A mapping of part names" over urlparse's
-    vocabulary — a rule for ANY part name of the vocabulary that the URL does not meet makes
-    the verdict False (default `all_parts`) -/
+/-- the documentation's reading of `required_parts` / `forbidden_parts`: "A mapping of part names"
+    over urlparse's vocabulary — a rule for ANY part name of the vocabulary that the URL does not
+    meet makes the verdict False (default `all_parts`) -/
 def C15_HttpRuleHonoured_Full : Prop :=
   ∀ (req forb : List (Str × PartRule)) (e : View) (url : Str) (p : Parsed) (k : Str) (v : PartVal),
     e.value = .str url → e.lib.urlparse url = .ok p → k ∈ httpVocabulary →
-    (partTable p).lookup k = some v → requiredHolds (req.lookup k) v = false →
+    (partTable p).lookup k = some v →
+    (requiredHolds (req.lookup k) v = false ∨ forbiddenHolds (forb.lookup k) v = false) →
     ∃ note, verdict (.httpURL httpPartNames req forb) e = .ok (false, note)
 
-/-- … which holds for every name that is in `all_parts` (any `all_parts` within the vocabulary) -/
+/-- for any `all_parts` within the vocabulary: a rule on a name that is in `all_parts` -/
 theorem http_rule_honoured_partial (ap : List Str) (req forb : List (Str × PartRule)) (e : View)
     (url : Str) (p : Parsed) (k : Str) (v : PartVal)
     (hv : e.value = .str url) (hp : e.lib.urlparse url = .ok p)
@@ -420,24 +422,45 @@ theorem http_rule_honoured_partial (ap : List Str) (req forb : List (Str × Part
     rw [hbad] at this
     cases this
 
-/-- **KF-C15-b, witness**: `required_parts={'netloc': True}`… more to the point
-    `required_parts={'netloc': ('example.com',)}` on `http://evil.example/`: the rule names a part
-    of the vocabulary, the URL does not meet it, the verdict is True — the default `all_parts`
-    has nine of the ten names, `netloc` is never looked at -/
-theorem http_netloc_rule_ignored : ¬ C15_HttpRuleHonoured_Full := by
-  intro h
-  let p : Parsed := { six := { scheme := "http".toList, netloc := "evil.example".toList,
-                               path := "/".toList },
-                      hostname := .str "evil.example".toList }
-  let e : View := { value := .str "http://evil.example/".toList,
-                    lib := { parse := [("http://evil.example/".toList, .inr p)] } }
-  obtain ⟨note, hn⟩ := h [("netloc".toList, .oneOf ["example.com".toList])] [] e
-    "http://evil.example/".toList p "netloc".toList (.str "evil.example".toList)
-    rfl (by decide) (by decide) (by decide) (by decide)
-  have : (verdict (.httpURL httpPartNames [("netloc".toList, .oneOf ["example.com".toList])] []) e).toOption.map (·.1)
-      = some true := by decide
-  rw [hn] at this
-  simp [Except.toOption] at this
+/-- generated obligation, on the table regenerated from /repo's current source: the default
+    `all_parts` lists exactly the ten documented names ("Defaults to the full 10-tuple of names in
+    urlparse's vocabulary for HTTP-like URLs") — false of the code before KF-C15-b was repaired
+    (`netloc` was missing) -/
+theorem default_all_parts_is_vocabulary :
+    (httpPartNames.all (fun k => httpVocabulary.contains k) &&
+     httpVocabulary.all (fun k => httpPartNames.contains k)) = true := by decide
+
+/-- **every documented part name's rule is honoured** with the default `all_parts` (KF-C15-b is
+    repaired: the former negation witness `required_parts={'netloc': ('example.com',)}` on
+    `http://evil.example/` is now an instance) -/
+theorem http_rule_honoured : C15_HttpRuleHonoured_Full := by
+  intro req forb e url p k v hv hp hk hl hr
+  have h := default_all_parts_is_vocabulary
+  simp only [Bool.and_eq_true, List.all_eq_true, List.contains_eq_mem, decide_eq_true_eq] at h
+  exact http_rule_honoured_partial httpPartNames req forb e url p k v hv hp h.1 (h.2 k hk) hl hr
+
+/-- non-vacuity / the former KF-C15-b witness: now False with `required_part` -/
+example :
+    let p : Parsed := { six := { scheme := "http".toList, netloc := "evil.example".toList,
+                                 path := "/".toList }, hostname := .str "evil.example".toList }
+    let e : View := { value := .str "http://evil.example/".toList,
+                      lib := { parse := [("http://evil.example/".toList, .inr p)] } }
+    (verdict (.httpURL httpPartNames [("netloc".toList, .oneOf ["example.com".toList])] []) e).toOption.map
+      (fun r => (r.1, r.2.map (·.key))) = some (false, some "required_part") := by decide
+
+/-- **check order with `netloc` in second place** (model = code): a URL that violates a `netloc`
+    rule and a rule of a LATER part gets the `netloc` message; one that also violates a `scheme`
+    rule gets the `scheme` message -/
+theorem http_netloc_before_later_parts :
+    let p : Parsed := { six := { scheme := "http".toList, netloc := "evil.example".toList,
+                                 path := "/".toList }, hostname := .str "evil.example".toList }
+    let e : View := { value := .str "http://evil.example/".toList,
+                      lib := { parse := [("http://evil.example/".toList, .inr p)] } }
+    let forb : List (Str × PartRule) := [("netloc".toList, .oneOf ["evil.example".toList])]
+    (verdict (.httpURL httpPartNames [("port".toList, .oneOf ["80".toList])] forb) e).toOption.map
+      (fun r => r.2.map (·.key)) = some (some "forbidden_part") ∧
+    (verdict (.httpURL httpPartNames [("scheme".toList, .oneOf ["https".toList])] forb) e).toOption.map
+      (fun r => r.2.map (·.key)) = some (some "required_part") := by decide
 
 /-! ### URLCanonicalizer -/
 
